@@ -321,7 +321,15 @@ func lockID(v Val) string {
 		return "lv?"
 	}
 	if v.T != nil {
-		return v.T.String()
+		t := v.T
+		for i := 0; i < 4 && t.Kind == kVar; i++ {
+			d, ok := defOf[t.Op]
+			if !ok {
+				break
+			}
+			t = d
+		}
+		return t.String()
 	}
 	return "?"
 }
